@@ -2,6 +2,7 @@ import sys
 area = sys.argv[1]
 wt = sys.argv[2]
 round2 = len(sys.argv) > 3 and sys.argv[3] == 'round2'
+round3 = len(sys.argv) > 3 and sys.argv[3] == 'round3'
 AREAS = {
  'A1': 'include/eventpp/callbacklist.h',
  'A2': 'include/eventpp/eventdispatcher.h and include/eventpp/utilities/eventutil.h',
@@ -27,6 +28,24 @@ if round2:
              'into a static or free helper taking the object explicitly; adding const, noexcept(false), explicit template arguments, or redundant parentheses and casts '
              'that do not change the selected overload; de Morgan rewrites; swapping the operands of == and !=; replacing ! x.empty() by x.size() != 0 only where the '
              'container provides size() for every policy. ')
+
+if round3:
+    extra = ('Two earlier studies already collected the following kinds, do NOT repeat them: guard clauses / inverted conditions, a local holding a test result, '
+             'lambda <-> named functor, range-for <-> iterator loop <-> std::for_each, lock_guard <-> unique_lock (also one unique_lock with explicit unlock/lock), '
+             'a private helper extracted or inlined, a function split into steps, a body moved into a static helper taking the object, reference / pointer aliases to '
+             'members, a small local struct for state, conditional expressions for if/else, de Morgan, merged loop conditions, member initialisers for body assignments, '
+             'execute-around closures for the list operation, typedef/using aliases, this-> qualification, std::addressof. Look for rewrites of OTHER kinds, for example: '
+             'single-exit style (one `result` variable assigned in the branches and returned at the end) or the reverse; nested ifs merged into one condition or one condition '
+             'split into nested ifs; a loop rotated (do-while with a leading test, `while(true)` with the test in the middle, loop peeling of the first iteration only where '
+             'provably equivalent); an index loop over an array instead of iterators or the reverse; a scope `{ lock_guard ...; ... }` turned into a call of a small generic '
+             'helper that runs a closure under a lock (withLock(mutex, [&]{ ... })); two overloads merged into one with a defaulted parameter, or one split into two; '
+             'a by-value parameter that is moved from turned into const-reference plus copy only where the observable copies/moves of user types stay the same; '
+             'member function definitions moved out of the class body (out-of-line template member definitions below the class) or the reverse; an `enable_if` on the return type moved '
+             'to a defaulted template parameter or to a tag-dispatched pair of helpers; a recursive metafunction rewritten with a helper alias or specialisation order changed '
+             'without changing its value; a small nested class hoisted to namespace internal_ scope; a static member function turned into a free function in internal_; '
+             'copy-and-swap written with an explicit temporary vs. by-value parameter only where overload resolution and noexcept stay the same; comparison chains reordered '
+             'where evaluation order does not matter (pure comparisons of locals); `const` locals, `noexcept` where already implied is NOT allowed (changes the interface). '
+             'Do NOT rename data members or public/protected functions, and do not change which mutex protects what. ')
 
 print(f'''You are given a scratch git worktree of the header-only C++11 library wqking/eventpp at {wt} (work ONLY inside that directory; never touch /repo or /verif, never read /verif). The library headers are in {wt}/include/eventpp, its unit tests (Catch) in {wt}/tests/unittest, its documentation in {wt}/doc.
 
